@@ -530,7 +530,7 @@ func RunC(t *CTable, sc CScript, p CParams) *CResult {
 			if hasIntended {
 				m = match(true)
 			}
-			if len(m) == 0 && (!hasIntended || time.Now().After(deadline.Add(-r.tm.settle*3/4))) {
+			if len(m) == 0 && (!hasIntended || time.Now().After(deadline.Add(-r.tm.settle/2))) {
 				m = match(false)
 			}
 			if len(m) > 0 || time.Now().After(deadline) {
